@@ -16,6 +16,7 @@ import CookModel.Lemmas.FrontMatterDoc
 import CookModel.Lemmas.SpansDataEv
 import CookModel.Lemmas.SpansDataUnit
 import CookModel.Lemmas.RefCheck
+import CookModel.Side.ReportWidths
 /-
   C04  Every reported source location is in bounds, on char boundaries, faithful.
 
@@ -1069,5 +1070,61 @@ example : RC.refDiag (α := Rat) (fun _ => .error) ⟨4, 14⟩ ⟨"pésto".toLis
 example : RC.refDiag (α := Rat) (fun _ => .error) ⟨4, 15⟩ ⟨"pésto".toList, none, none, none, none, default, ⟨3⟩⟩ = none := by
   decide
 -- ===== end w7reauditC =====
+
+-- ===== w9report =====
+
+/-- (specification side) the widths `write_report` hands to codesnake for a sequence of code parts, in call order:
+    `max(width of the part with tabs as four spaces, 1)`, minus one when the part BEFORE it (on the same line or on
+    the line above — the flag is never reset) was empty -/
+def rwWidthsOf (strWidth : List Char → Nat) : Bool → List (List Char) → List Nat
+  | _, [] => []
+  | pe, s :: rest => (max (strWidth (expandTabs s)) 1 - (if pe then 1 else 0)) :: rwWidthsOf strWidth s.isEmpty rest
+
+/-- **The width closure of `write_report`, one call**: for every string-width function, every state of the
+    `prev_empty` flag and every code part, `max(w, 1) - sub` does not underflow (`sub ≤ 1 ≤ max(w, 1)`); the result is
+    that number, and the flag becomes "this part is empty". -/
+theorem C04_report_width_step (sw : List Char → Nat) (pe : Bool) (s : List Char) :
+    codeWidthStep sw pe s = (.ok (max (sw (expandTabs s)) 1 - (if pe then 1 else 0)), s.isEmpty) := by
+  unfold codeWidthStep
+  have h : (if pe = true then 1 else 0) ≤ max (sw (expandTabs s)) 1 := by
+    cases pe <;> simp <;> omega
+  simp only [h, if_true]
+
+/-- **The width arithmetic of the report renderer never panics, and what it computes.**  For EVERY sequence of code
+    parts (so in particular for the parts codesnake cuts out for valid labels), every string-width function
+    (`unicode-width` is external) and every initial flag, the closure `write_report` passes to `map_code` returns, for
+    each part, `max(w, 1) - sub` without underflow: the list `rwWidthsOf`. -/
+theorem C04_report_widths_never_panic (sw : List Char → Nat) (pe : Bool) (parts : List (List Char)) :
+    codeWidths sw pe parts = .ok (rwWidthsOf sw pe parts) := by
+  induction parts generalizing pe with
+  | nil => rfl
+  | cons s rest ih =>
+    simp only [codeWidths, C04_report_width_step, ih, rwWidthsOf]
+
+/-- one width per part -/
+theorem C04_report_widths_length (sw : List Char → Nat) (pe : Bool) (parts : List (List Char)) :
+    (rwWidthsOf sw pe parts).length = parts.length := by
+  induction parts generalizing pe with
+  | nil => rfl
+  | cons s rest ih => simp [rwWidthsOf, ih]
+
+/-- **Which widths are ≥ 1.**  A part that does not follow an empty part gets a width ≥ 1, equal to the string width
+    of its text (tabs as four spaces) unless that is 0; a part that FOLLOWS an empty part (an empty label, an empty
+    line inside a long label) gets one less — 0 exactly when its own string width is ≤ 1. -/
+theorem C04_report_width_values (sw : List Char → Nat) (s : List Char) :
+    (codeWidthStep sw false s).1 = .ok (max (sw (expandTabs s)) 1) ∧ 1 ≤ max (sw (expandTabs s)) 1 ∧
+    (codeWidthStep sw true s).1 = .ok (max (sw (expandTabs s)) 1 - 1) ∧
+    (max (sw (expandTabs s)) 1 - 1 = 0 ↔ sw (expandTabs s) ≤ 1) := by
+  simp only [C04_report_width_step]
+  refine ⟨by simp, by omega, by simp, by omega⟩
+
+/-! non-vacuity: `a\tb` with an empty label at 1 and a label on the tab-and-b: parts `a`, ``, `\tb`; widths 1, 1, 4
+    (five columns minus one for the empty label before it); a width-0 character after an empty label gets 0 -/
+example : codeWidths (fun t => t.length) false [['a'], [], ['\t', 'b']] = .ok [1, 1, 4] := by rfl
+example : codeWidths (fun _ => 0) false [[], ['\u0301']] = .ok [1, 0] := by rfl
+/-! the parts of the line `a\tb\r` (of a CRLF file) with an empty label at 1 and a label 1..3 -/
+example : segmentParts ['a', '\t', 'b', '\r'] { inside := [(1, 1, true), (1, 3, true)] } =
+    some [(.plain, ['a']), (.labelled, []), (.labelled, ['\t', 'b']), (.plain, ['\r'])] := by decide
+-- ===== end w9report =====
 
 end Cook
